@@ -480,6 +480,15 @@ func setBitLen(r *h.Row, n int) {
 func damage(t []h.Row, kind, row, pos int, rng *rand.Rand) []h.Row {
 	m := cloneRows(t)
 	r := &m[row%len(m)]
+	if r.Ty != 0 && (kind == 0 || kind == 1 || kind == 7) {
+		// an exotic cell stays well formed (the bag-of-cells parser rejects the others, property C07): its length is
+		// kept and only bits after the type and mask bytes are flipped
+		if r.BitLen > 16 {
+			p := 16 + pos%(r.BitLen-16)
+			r.Data[p/8] ^= 1 << uint(7-p%8)
+		}
+		return m
+	}
 	switch kind {
 	case 0: // flip one bit
 		if r.BitLen > 0 {
